@@ -2,7 +2,10 @@ package main
 
 import (
 	"fmt"
+	"go/token"
 	"go/types"
+	"golang.org/x/tools/go/ssa/ssautil"
+	"sort"
 	"strings"
 
 	"golang.org/x/tools/go/ssa"
@@ -161,6 +164,10 @@ func (fx *FuncExec) scanMods(fn *ssa.Function, depth int, seen map[*ssa.Function
 					continue
 				}
 				t := x.resolve(nil, c, depth)
+				if strings.HasPrefix(t.name, "sync.(*Mutex).") || strings.HasPrefix(t.name, "sync.(*RWMutex).") {
+					fx.modKeys["ghost:mu_held"] = true
+					continue
+				}
 				switch t.kind {
 				case "builtin":
 					switch t.builtin {
@@ -174,7 +181,12 @@ func (fx *FuncExec) scanMods(fn *ssa.Function, depth int, seen map[*ssa.Function
 				case "contract":
 					k := t.contract
 					for _, gs := range k.GhostSets {
-						fx.modKeys["ghost:"+gs.Ghost] = true
+						if gs.Ghost != "" {
+							fx.modKeys["ghost:"+gs.Ghost] = true
+						}
+						for _, hk := range gs.HavocKeys {
+							fx.modKeys[hk] = true
+						}
 					}
 					if !k.HasMod {
 						fx.modAll = true
@@ -186,7 +198,6 @@ func (fx *FuncExec) scanMods(fn *ssa.Function, depth int, seen map[*ssa.Function
 								for _, p := range ps {
 									fx.modKeys[p] = true
 								}
-								fx.modKeys["ghost"] = true
 								continue
 							}
 						}
@@ -250,7 +261,7 @@ func (x *Exec) contractParams(k *FuncContract, t callTarget, c *ssa.CallCommon) 
 // locPrefixStatic maps a modifies location to a heap key prefix using static types only.
 func (x *Exec) locPrefixStatic(k *FuncContract, t callTarget, c *ssa.CallCommon, loc string) (string, bool) {
 	loc = strings.TrimSpace(loc)
-	if loc == "heap" {
+	if loc == "heap" || isWorld(loc) {
 		return "", false
 	}
 	if strings.HasPrefix(loc, "ghost ") {
@@ -362,6 +373,11 @@ func (x *Exec) call(st *State, fn *ssa.Function, ins ssa.Value, c *ssa.CallCommo
 	}
 	if t.fn != nil && t.fn.Signature.Recv() != nil && len(args) > 0 && args[0].K == VRef {
 		x.nilCheck(st, ins.(ssa.Instruction), args[0])
+	}
+	if t.fn != nil && strings.HasPrefix(t.name, "sync.") {
+		if insI, ok := ins.(ssa.Instruction); ok && x.mutexCall(st, insI, t.name, args) {
+			return []*State{st}
+		}
 	}
 	switch t.kind {
 	case "builtin":
@@ -496,14 +512,43 @@ func (x *Exec) applyContract(st *State, ins ssa.Instruction, t callTarget, c *ss
 			st.assume(g)
 		}
 	}
+	// vacuity canaries come in pairs: the state must be satisfiable before the contract is
+	// applied (else the path itself is infeasible) and still satisfiable afterwards
+	canaryKey := ""
+	if len(k.Ensures) > 0 && !x.eng.isQuiet(st) {
+		key := x.fx.siteKey(ins, "after:"+shortName(t.name))
+		x.eng.mu.Lock()
+		if x.fx.canaryCount == nil {
+			x.fx.canaryCount = map[string]int{}
+		}
+		n := x.fx.canaryCount[key]
+		x.fx.canaryCount[key] = n + 1
+		x.eng.mu.Unlock()
+		if n < 2 {
+			canaryKey = key
+			x.eng.oblige(x.fx, st, "canary", key+":pre", "false", "vacuity canary (path feasible before the call)", ins.Pos())
+		}
+	}
 	// frame
 	if !k.HasMod {
 		x.frameCheck(st, ins, "*", "", "", "the whole heap (callee "+shortName(t.name)+" has no modifies clause)")
 		st.havocAll(t.name)
 	} else {
+		x.curCallee = t.fn
 		for _, loc := range k.Modifies {
 			x.calleeFrame(st, ins, sc, loc)
 			x.havocLoc(st, sc, loc)
+		}
+		x.curCallee = nil
+		// ghost statements inside the callee's body change those ghosts in ways only its
+		// postconditions describe
+		for _, gs := range k.GhostSets {
+			if gs.At != "" && gs.Ghost != "" {
+				st.havocPrefix("ghost:" + gs.Ghost)
+			}
+			for _, hk := range gs.HavocKeys {
+				st.havocPrefix(hk)
+			}
 		}
 	}
 	// the callee may allocate: objects it returns as "fresh" lie at or above the old break
@@ -536,6 +581,9 @@ func (x *Exec) applyContract(st *State, ins ssa.Instruction, t callTarget, c *ss
 	for _, en := range k.Ensures {
 		st.assume(sc2.evalHyp(en.E))
 	}
+	if canaryKey != "" {
+		x.eng.oblige(x.fx, st, "canary", canaryKey, "false", "vacuity canary: the callee's postcondition must be satisfiable here", ins.Pos())
+	}
 	if sig.Results().Len() == 1 {
 		return res.Fs[0]
 	}
@@ -547,6 +595,33 @@ func (x *Exec) havocLoc(st *State, sc *SpecCtx, loc string) {
 	loc = strings.TrimSpace(loc)
 	if loc == "heap" {
 		st.havocAll("modifies heap")
+		return
+	}
+	if isWorld(loc) {
+		// everything except the ghost state of synchronisation objects (which only changes
+		// through sync operations; an opaque callee leaves its caller's locks and channels alone)
+		// and except the fields of the listed types (world except T1, T2: the callee cannot name
+		// the unexported fields of this package's types; listed as an assumption)
+		var keepPrefixes []string
+		for _, tn := range worldExcept(loc) {
+			keepPrefixes = append(keepPrefixes, x.typePrefix(tn))
+		}
+		for _, pd := range x.eng.cs.Private[x.fx.pkgPath()] {
+			if x.curCallee != nil && reachesWriter(x.curCallee, pd, map[*ssa.Function]bool{}, 0) {
+				// the callee is, or calls, one of the type's own writers: only the fields none
+				// of the functions it can reach writes are left alone
+				keepPrefixes = append(keepPrefixes, x.eng.unwrittenFields(x.curCallee, pd)...)
+			} else {
+				keepPrefixes = append(keepPrefixes, pd.Prefix)
+			}
+			// bookkeeping ghosts attached to a private type are not an opaque callee's to change
+			for _, g := range x.eng.cs.Ghosts {
+				if g.Arg == pd.Pkg+"."+pd.Type && !x.eng.reachesGhostSet(x.curCallee, g.Name) {
+					keepPrefixes = append(keepPrefixes, "ghost:"+g.Name)
+				}
+			}
+		}
+		st.havocWorld(keepPrefixes)
 		return
 	}
 	if strings.HasPrefix(loc, "ghost ") {
@@ -561,6 +636,9 @@ func (x *Exec) havocLoc(st *State, sc *SpecCtx, loc string) {
 				st.unsupported("unknown ghost " + g[:i])
 			}
 			av := sc.eval(argE)
+			if av.K == VAddr {
+				av = Value{K: VRef, T: av.A.Root}
+			}
 			key := "ghost:" + gd.Name
 			sort, ar := ghostSort(gd)
 			h := st.heapTermIn(st.heap, key, 1, sort)
@@ -589,11 +667,10 @@ func (x *Exec) havocLoc(st *State, sc *SpecCtx, loc string) {
 			return
 		}
 		if ok && v.Ty != nil {
-			if ps := x.eng.implPrefixes(v.Ty); len(ps) > 0 {
+			if ps := fieldsOnly(loc, x.eng.implPrefixes(v.Ty)); len(ps) > 0 {
 				for _, p := range ps {
 					st.havocPrefix(p)
 				}
-				st.havocPrefix("ghost")
 				return
 			}
 		}
@@ -712,7 +789,14 @@ func (x *Exec) closurePre(st *State, ins *ssa.MakeClosure, f *ssa.Function, bind
 	for i, fv := range f.FreeVars {
 		env[fv.Name()] = binds[i]
 	}
-	sc := x.specCtx(st, st.heap, st.heap, env)
+	hv := st.heap
+	if spawnedOnly(ins) {
+		// the closure only ever runs as a new goroutine, which holds no lock when it starts:
+		// the lock state is per goroutine
+		hv = st.heap.clone()
+		hv.m["ghost:mu_held"] = "((as const (Array Int Bool)) false)"
+	}
+	sc := x.specCtx(st, hv, hv, env)
 	sc.lenient = true
 	n := 0
 	for _, r := range k.Requires {
@@ -774,7 +858,7 @@ func (x *Exec) calleeFrame(st *State, ins ssa.Instruction, sc *SpecCtx, loc stri
 	}
 	loc = strings.TrimSpace(loc)
 	switch {
-	case loc == "heap":
+	case loc == "heap" || isWorld(loc):
 		x.frameCheck(st, ins, "*", "", "", "the whole heap (callee modifies heap)")
 	case strings.HasPrefix(loc, "ghost "):
 		g := strings.TrimSpace(strings.TrimPrefix(loc, "ghost "))
@@ -783,7 +867,7 @@ func (x *Exec) calleeFrame(st *State, ins ssa.Instruction, sc *SpecCtx, loc stri
 			if e, err := ParseExpr(g[i+1 : len(g)-1]); err == nil {
 				v := sc.eval(e)
 				if v.K == VAddr {
-					v = st.addrToRef(v)
+					v = Value{K: VRef, T: v.A.Root}
 				}
 				root = v.T
 			}
@@ -929,7 +1013,22 @@ func (x *Exec) dynPrefixesStatic(k *FuncContract, t callTarget, c *ssa.CallCommo
 	if ty == nil {
 		return nil
 	}
-	return x.eng.implPrefixes(ty)
+	return fieldsOnly(loc, x.eng.implPrefixes(ty))
+}
+
+// fieldsOnly: `dyn(x).fields` covers the struct fields of the possible dynamic types but not
+// the elements of slices they own (`dyn(x).*` covers both).
+func fieldsOnly(loc string, ps []string) []string {
+	if !strings.HasSuffix(strings.TrimSpace(loc), ".fields") {
+		return ps
+	}
+	var out []string
+	for _, p := range ps {
+		if !strings.HasPrefix(p, "elem:") {
+			out = append(out, p)
+		}
+	}
+	return out
 }
 
 // applyGhostSets performs the ghost assignments of contract k in the context sc (whose `old`
@@ -943,6 +1042,9 @@ func (x *Exec) applyGhostSets(st *State, k *FuncContract, sc *SpecCtx) {
 	}
 	var ups []upd
 	for _, gs := range k.GhostSets {
+		if gs.At != "" || gs.Ghost == "" {
+			continue // anchored ghost statements run inside the body
+		}
 		gd := x.eng.cs.Ghosts[gs.Ghost]
 		if gd == nil {
 			st.unsupported("ghostset of unknown ghost " + gs.Ghost)
@@ -963,4 +1065,384 @@ func (x *Exec) applyGhostSets(st *State, k *FuncContract, sc *SpecCtx) {
 		h := st.heapTermIn(st.heap, u.key, 1, u.sort)
 		st.heapSet(u.key, fmt.Sprintf("(store %s %s %s)", h, u.idx, u.val))
 	}
+}
+
+var syncGhosts = []string{"ghost:mu_held", "ghost:chan_cap", "ghost:chan_sends", "ghost:chan_recvs", "ghost:chan_closed", "ghost:wg_added", "ghost:wg_done", "ghost:wg_waited", "ghost:go_started"}
+
+// spawnedOnly: every use of the closure value is a go statement.
+func spawnedOnly(mc *ssa.MakeClosure) bool {
+	refs := mc.Referrers()
+	if refs == nil || len(*refs) == 0 {
+		return false
+	}
+	for _, r := range *refs {
+		if _, ok := r.(*ssa.DebugRef); ok {
+			continue
+		}
+		if g, ok := r.(*ssa.Go); !ok || g.Call.Value != mc {
+			return false
+		}
+	}
+	return true
+}
+
+func isWorld(loc string) bool {
+	return loc == "world" || strings.HasPrefix(loc, "world except ")
+}
+
+func worldExcept(loc string) []string {
+	if !strings.HasPrefix(loc, "world except ") {
+		return nil
+	}
+	var out []string
+	for _, p := range strings.Split(strings.TrimPrefix(loc, "world except "), ",") {
+		if p = strings.TrimSpace(p); p != "" {
+			out = append(out, p)
+		}
+	}
+	return out
+}
+
+// typePrefix resolves a type name (relative to the package of the function under verification,
+// or fully qualified) to its heap key prefix.
+func (x *Exec) typePrefix(name string) string {
+	fn := x.fx.fn
+	var pkg *types.Package
+	if fn.Pkg != nil {
+		pkg = fn.Pkg.Pkg
+	} else if o := fn.Origin(); o != nil && o.Pkg != nil {
+		pkg = o.Pkg.Pkg
+	} else if p := fn.Parent(); p != nil && p.Pkg != nil {
+		pkg = p.Pkg.Pkg
+	}
+	if pkg != nil && !strings.Contains(name, ".") {
+		if o := pkg.Scope().Lookup(name); o != nil {
+			return typeKey(o.Type())
+		}
+	}
+	return strings.TrimPrefix(name, "rare/")
+}
+
+// havocWorld forgets the whole heap except the synchronisation ghosts and every key under one
+// of the kept prefixes.
+func (st *State) havocWorld(keep []string) {
+	old := st.heap
+	for _, k := range syncGhosts {
+		sort := "Int"
+		if k == "ghost:mu_held" || k == "ghost:chan_closed" || k == "ghost:wg_waited" {
+			sort = "Bool"
+		}
+		st.heapTermIn(old, k, 1, sort)
+		old.m[k] = st.heapTermIn(old, k, 1, sort)
+	}
+	st.havocAll("modifies world")
+	nh := st.heap
+	for _, k := range syncGhosts {
+		nh.m[k] = old.m[k]
+	}
+	if len(keep) == 0 {
+		return
+	}
+	nh.pre = map[string]string{}
+	under := func(k, p string) bool {
+		return k == p || strings.HasPrefix(k, p+".") || strings.HasPrefix(k, p+"#")
+	}
+	for _, p := range keep {
+		// untouched keys under p keep the generation they had before the call
+		gen := old.base
+		best := -1
+		for q, g := range old.pre {
+			if under(p, q) && len(q) > best {
+				gen, best = g, len(q)
+			}
+		}
+		nh.pre[p] = gen
+		for q, g := range old.pre {
+			if under(q, p) && q != p {
+				nh.pre[q] = g
+			}
+		}
+		for k, v := range old.m {
+			if under(k, p) {
+				nh.m[k] = v
+			}
+		}
+	}
+}
+
+func (fx *FuncExec) pkgPath() string {
+	fn := fx.fn
+	for fn != nil {
+		if fn.Pkg != nil {
+			return fn.Pkg.Pkg.Path()
+		}
+		if o := fn.Origin(); o != nil && o.Pkg != nil {
+			return o.Pkg.Pkg.Path()
+		}
+		fn = fn.Parent()
+	}
+	return ""
+}
+
+// checkPrivate emits, for every private declaration of the package, the obligation that the
+// functions that write a field of the type (a store through a field address, or a field address
+// handed to a call) are exactly within the declared writer list.
+func (e *Engine) checkPrivate(pkgPath string) {
+	for _, pd := range e.cs.Private[pkgPath] {
+		fx := &FuncExec{eng: e, name: "private:" + pkgPath + "." + pd.Type}
+		st := &State{fx: fx, declSet: map[string]bool{}, pcSet: map[string]bool{}}
+		e.funcsDone = append(e.funcsDone, fx.name)
+		allowed := map[string]bool{}
+		for _, w := range pd.Writers {
+			allowed[w] = true
+		}
+		writers := map[string]token.Pos{}
+		for fn := range ssautil.AllFunctions(e.prog) {
+			for _, b := range fn.Blocks {
+				for _, ins := range b.Instrs {
+					fa, ok := ins.(*ssa.FieldAddr)
+					if !ok {
+						continue
+					}
+					pt, ok := fa.X.Type().Underlying().(*types.Pointer)
+					if !ok || typeKey(pt.Elem()) != pd.Prefix {
+						continue
+					}
+					if refs := fa.Referrers(); refs != nil {
+						for _, r := range *refs {
+							switch u := r.(type) {
+							case *ssa.Store:
+								if u.Addr == fa {
+									writers[shortFuncName(fn)] = u.Pos()
+								}
+							case *ssa.UnOp, *ssa.DebugRef, *ssa.FieldAddr, *ssa.IndexAddr:
+							case *ssa.Call:
+								if sf := u.Call.StaticCallee(); sf != nil && (strings.HasPrefix(funcFullName(sf), "sync/atomic.Load") || strings.HasPrefix(funcFullName(sf), "sync.(*")) {
+									continue
+								}
+								writers[shortFuncName(fn)] = r.Pos()
+							case *ssa.Defer:
+								if sf := u.Call.StaticCallee(); sf != nil && strings.HasPrefix(funcFullName(sf), "sync.(*") {
+									continue
+								}
+								writers[shortFuncName(fn)] = r.Pos()
+							default:
+								writers[shortFuncName(fn)] = r.Pos()
+							}
+						}
+					}
+				}
+			}
+		}
+		var names []string
+		for n := range writers {
+			names = append(names, n)
+		}
+		sort.Strings(names)
+		for _, n := range names {
+			g := "false"
+			if allowed[n] {
+				g = "true"
+			}
+			e.oblige(fx, st, "private", "writer["+n+"]", g, fmt.Sprintf("%s writes a field of %s but is not in its declared writer list %v", n, pd.Type, pd.Writers), writers[n])
+		}
+		e.assumptions = append(e.assumptions, fmt.Sprintf("private %s.%s: calls with frame `world` in this package are assumed not to reach the writers %v of the type's fields (checked: no other function writes them)", pkgPath, pd.Type, names))
+	}
+}
+
+func shortFuncName(fn *ssa.Function) string {
+	n := funcFullName(fn)
+	if i := strings.LastIndex(n, "/"); i >= 0 {
+		n = n[i+1:]
+	}
+	if i := strings.Index(n, "."); i >= 0 {
+		n = n[i+1:]
+	}
+	return n
+}
+
+// reachesWriter: fn is one of pd's declared writers or reaches one through static calls,
+// deferred calls, go statements or closures it creates.
+func reachesWriter(fn *ssa.Function, pd *PrivateDecl, seen map[*ssa.Function]bool, depth int) bool {
+	if fn == nil || seen[fn] || depth > 8 {
+		return false
+	}
+	seen[fn] = true
+	n := shortFuncName(fn)
+	for _, w := range pd.Writers {
+		if w == n {
+			return true
+		}
+	}
+	for _, b := range fn.Blocks {
+		for _, ins := range b.Instrs {
+			var callee *ssa.Function
+			switch v := ins.(type) {
+			case ssa.CallInstruction:
+				callee = v.Common().StaticCallee()
+			case *ssa.MakeClosure:
+				callee, _ = v.Fn.(*ssa.Function)
+			}
+			if callee != nil && reachesWriter(callee, pd, seen, depth+1) {
+				return true
+			}
+		}
+	}
+	return false
+}
+
+// reachable: the functions fn can reach through static calls, defers, go statements and the
+// closures it creates (fn included).
+func reachable(fn *ssa.Function, seen map[*ssa.Function]bool) {
+	if fn == nil || seen[fn] {
+		return
+	}
+	seen[fn] = true
+	for _, b := range fn.Blocks {
+		for _, ins := range b.Instrs {
+			switch v := ins.(type) {
+			case ssa.CallInstruction:
+				reachable(v.Common().StaticCallee(), seen)
+			case *ssa.MakeClosure:
+				if f, ok := v.Fn.(*ssa.Function); ok {
+					reachable(f, seen)
+				}
+			}
+		}
+	}
+}
+
+// fieldWritersOf lists, per field heap key of the struct type with key prefix, the functions
+// that write the field (store through its address, or hand its address to a call that is not
+// a sync/atomic load or a mutex operation).
+func (e *Engine) fieldWritersOf(prefix string) map[string]map[*ssa.Function]bool {
+	e.mu.Lock()
+	if e.fieldWriters == nil {
+		e.fieldWriters = map[string]map[string]map[*ssa.Function]bool{}
+	}
+	if m, ok := e.fieldWriters[prefix]; ok {
+		e.mu.Unlock()
+		return m
+	}
+	e.mu.Unlock()
+	m := map[string]map[*ssa.Function]bool{}
+	for fn := range ssautil.AllFunctions(e.prog) {
+		for _, b := range fn.Blocks {
+			for _, ins := range b.Instrs {
+				fa, ok := ins.(*ssa.FieldAddr)
+				if !ok {
+					continue
+				}
+				pt, ok := fa.X.Type().Underlying().(*types.Pointer)
+				if !ok || typeKey(pt.Elem()) != prefix {
+					continue
+				}
+				stt, ok := pt.Elem().Underlying().(*types.Struct)
+				if !ok {
+					continue
+				}
+				key := prefix + "." + stt.Field(fa.Field).Name()
+				if fieldAddrWritten(fa, 0) {
+					if m[key] == nil {
+						m[key] = map[*ssa.Function]bool{}
+					}
+					m[key][fn] = true
+				}
+			}
+		}
+	}
+	e.mu.Lock()
+	e.fieldWriters[prefix] = m
+	e.mu.Unlock()
+	return m
+}
+
+func fieldAddrWritten(v ssa.Value, depth int) bool {
+	refs := v.Referrers()
+	if refs == nil || depth > 4 {
+		return refs != nil
+	}
+	for _, r := range *refs {
+		switch u := r.(type) {
+		case *ssa.Store:
+			if u.Addr == v {
+				return true
+			}
+			return true // the address itself is stored somewhere: may be written through later
+		case *ssa.UnOp, *ssa.DebugRef:
+		case *ssa.FieldAddr:
+			if fieldAddrWritten(u, depth+1) {
+				return true
+			}
+		case *ssa.IndexAddr:
+			if fieldAddrWritten(u, depth+1) {
+				return true
+			}
+		case ssa.CallInstruction:
+			if sf := u.Common().StaticCallee(); sf != nil && (strings.HasPrefix(funcFullName(sf), "sync/atomic.Load") || strings.HasPrefix(funcFullName(sf), "sync.(*")) {
+				continue
+			}
+			return true
+		default:
+			return true
+		}
+	}
+	return false
+}
+
+// unwrittenFields: key prefixes of the fields of pd's type that no function reachable from
+// callee writes.
+func (e *Engine) unwrittenFields(callee *ssa.Function, pd *PrivateDecl) []string {
+	reach := map[*ssa.Function]bool{}
+	reachable(callee, reach)
+	fw := e.fieldWritersOf(pd.Prefix)
+	var out []string
+	pkg := e.prog.ImportedPackage(pd.Pkg)
+	if pkg == nil {
+		return nil
+	}
+	tm, ok := pkg.Members[pd.Type].(*ssa.Type)
+	if !ok {
+		return nil
+	}
+	stt, ok := tm.Type().Underlying().(*types.Struct)
+	if !ok {
+		return nil
+	}
+	for i := 0; i < stt.NumFields(); i++ {
+		key := pd.Prefix + "." + stt.Field(i).Name()
+		written := false
+		for f := range fw[key] {
+			if reach[f] {
+				written = true
+			}
+		}
+		if !written {
+			out = append(out, key)
+		}
+	}
+	return out
+}
+
+// reachesGhostSet: some function reachable from callee has a contract with a ghost statement
+// for ghost g (the direct callee's own statements are applied or havocked by the caller).
+func (e *Engine) reachesGhostSet(callee *ssa.Function, g string) bool {
+	if callee == nil {
+		return false
+	}
+	reach := map[*ssa.Function]bool{}
+	reachable(callee, reach)
+	for f := range reach {
+		if f == callee {
+			continue
+		}
+		if k := e.cs.Funcs[funcFullName(f)]; k != nil {
+			for _, gs := range k.GhostSets {
+				if gs.Ghost == g {
+					return true
+				}
+			}
+		}
+	}
+	return false
 }
